@@ -52,5 +52,52 @@ def run():
     res = common.validate_trace(sv, module="ServiceTrace", cfg="ServiceTrace.cfg", shard=10 ** 9, tag="self5")
     print("ServiceTrace:", res["bad"])
     ok &= set(res["bad"]) == {(4, "C07"), (5, "once")}
+    # 4. dressed events: the dress is checked, not believed; the oracle is evaluated on the drawing's own rows
+    t = "+--+\n|ab|\n+--+--"
+    od = observe.observe([{"input": t.replace("\n", " \t\r\n") + "\r\n\r\n"}, {"input": t + "\n\n# Legend:\na = {fill:red}\n"}])
+    d1 = {"props": ["C03"], "rows": od[0]["rows"], "orows": gen.rows_of(t), "dec": "eol", "doc": od[0]["doc"]}
+    d2 = {"props": ["C03"], "rows": od[1]["rows"], "orows": gen.rows_of(t), "dec": "legend", "doc": od[1]["doc"]}
+    d3 = copy.deepcopy(d1); d3["orows"] = gen.rows_of("+--+\n|ab|\n+--+")            # not the drawing that was converted
+    d4 = copy.deepcopy(d2); d4["dec"] = "eol"                                          # a legend passed off as trailing blanks
+    d5 = copy.deepcopy(d2); d5["doc"]["elems"][0]["n"][0] += 8000                      # the oracle still bites
+    res = common.validate_trace([d1, d2, d3, d4, d5], tag="self6")
+    print("DocTrace (dressed):", res["bad"])
+    ok &= set(i for i, _ in res["bad"]) == {2, 3, 4}
+    # 5. BufferTrace: a recorded write moved, a render's page wrong, a render that differs from the fresh one
+    class _R:
+        def __init__(self):
+            self.events, self.event_meta = [], []
+
+        def add_event(self, ev, meta):
+            self.events.append(ev)
+            self.event_meta.append(meta)
+    from . import props
+    rb = _R()
+    props.buffer_histories(rb, common.rng("selftest/buf"), 3, ["fresh", "scale", "canvas"], "selfB")
+    good = common.validate_trace(copy.deepcopy(rb.events), module="BufferTrace", cfg="BufferTrace.cfg", tag="self7")
+    ins = [i for i, e in enumerate(rb.events) if e["ev"] == "insert"]
+    ren = [i for i, e in enumerate(rb.events) if e["ev"] == "render" and e["doc"]["elems"]]
+    b1 = copy.deepcopy(rb.events); b1[ins[0]]["x"] += 40
+    b2 = copy.deepcopy(rb.events); b2[ren[-1]]["doc"]["w"] += 8000
+    b3 = copy.deepcopy(rb.events); b3[ren[0]]["doc"]["elems"] = b3[ren[0]]["doc"]["elems"][1:]
+    r1 = common.validate_trace(b1, module="BufferTrace", cfg="BufferTrace.cfg", tag="self8")
+    r2 = common.validate_trace(b2, module="BufferTrace", cfg="BufferTrace.cfg", tag="self9")
+    r3 = common.validate_trace(b3, module="BufferTrace", cfg="BufferTrace.cfg", tag="self10")
+    print("BufferTrace: intact %s, write moved %s, page wrong %s, element dropped %s" % (
+        good["bad"], sorted(set(p for _, p in r1["bad"])), sorted(set(p for _, p in r2["bad"])), sorted(set(p for _, p in r3["bad"]))))
+    ok &= (good["bad"] == [] and "driver" in set(p for _, p in r1["bad"]) and "canvas" in set(p for _, p in r2["bad"])
+           and "fresh" in set(p for _, p in r3["bad"]))
+    # 6. PipelineTrace, enclosure stage: a class name taken away from the forest the code logged
+    o = observe.observe([{"input": "+------+\n| {ab} |\n+------+"}], stages=True)[0]
+    evs = stages.events_of(o["stages"])
+    for e in evs:
+        if e["ev"] != "cells":
+            e["rel"] = 1
+    enc = [e for e in evs if e["ev"] == "enclose"][0]
+    good = common.validate_trace(copy.deepcopy(evs), module="PipelineTrace", cfg="PipelineTrace.cfg", tag="self11")
+    enc["flat"][0][1] = []
+    bad = common.validate_trace(evs, module="PipelineTrace", cfg="PipelineTrace.cfg", tag="self12")
+    print("PipelineTrace (enclose): intact %s, class name removed %s" % (good["bad"], bad["bad"]))
+    ok &= good["bad"] == [] and any(p == "enclose" for _, p in bad["bad"])
     print("SELFTEST", "OK" if ok else "FAILED")
     return 0 if ok else 1
